@@ -70,6 +70,27 @@ pub fn timestamp(_cex: &Value) -> Result<String, String> {
       }
     }
   }
+  // every unit constructor is count * unit seconds as an integer, also past u32::MAX seconds
+  type Ctor = fn(u32) -> Duration;
+  let units: [(&str, Ctor, i64); 5] =
+    [("seconds", Duration::seconds, 1), ("minutes", Duration::minutes, 60), ("hours", Duration::hours, 3600), ("days", Duration::days, 86400), ("weeks", Duration::weeks, 604800)];
+  for (name, ctor, k) in units {
+    let edge = (u32::MAX as i64 / k) as u32;
+    for n in [0u32, 1, 59, 60, edge.saturating_sub(1), edge, edge.saturating_add(1), edge.saturating_add(1000), u32::MAX / 2, u32::MAX] {
+      for base in [MIN, 0] {
+        let t = Timestamp::from_unix(base).unwrap();
+        match no_panic(move || t.checked_add(ctor(n)).map(|x| x.to_unix())) {
+          Err(msg) => log.push(format!("[duration] {name}({n}) added to {base} panicked: {msg}")),
+          Ok(got) => {
+            let want = Some(base + n as i64 * k).filter(|x| (MIN..=MAX).contains(x));
+            if got != want {
+              log.push(format!("[duration] {base} + {name}({n}) = {got:?}, integer arithmetic gives {want:?}"));
+            }
+          }
+        }
+      }
+    }
+  }
   let only: Option<String> = _cex.get("only").and_then(Value::as_str).map(str::to_owned);
   let log: Vec<String> = log.into_iter().filter(|l| only.as_ref().map(|o| l.contains(o.as_str())).unwrap_or(true)).collect();
   if log.is_empty() {
